@@ -27,6 +27,7 @@ structure SmboSt where
   initL : List Pos := []
   sm : SmboState := {}
   tape : Tape := []
+  flat : Bool := false        -- `all_pos_comb` was built from an EMPTY list of feasible rows: numpy makes that a 1-D array of shape (0,)
 deriving Repr, Inhabited
 
 /-- `_all_possible_pos()`: the grid and the constraint verdict of each of its rows -/
@@ -90,7 +91,10 @@ def smboPropose (cfg : SmboCfg) (s : SmboSt) : Except Err (Pos × Tape) :=
     | .parents idxs :: rest =>
       match sampleCands s.sm.cands idxs with
       | .error e => .error e
-      | .ok pc => if s.sm.X = [] then .error .valueError else pickByAcq pc rest
+      | .ok pc =>
+        if s.sm.X = [] then .error .valueError
+        else if s.flat ∧ pc = [] then .error .valueError        -- cdist refuses the 1-D empty candidate array as well
+        else pickByAcq pc rest
     | [] => .error .needMore
     | _ => .error (protocol "_sampling")
   else
@@ -138,7 +142,7 @@ def smboInitPos (s : SmboSt) : Except Err (Pos × SmboSt) :=
 def smboFinishInit (s : SmboSt) : Except Err SmboSt :=
   match allPossiblePos s.tape with
   | .error e => .error e
-  | .ok a => .ok { s with sm := { s.sm with cands := a.1 }, tape := a.2 }
+  | .ok a => .ok { s with sm := { s.sm with cands := a.1 }, tape := a.2, flat := a.1.isEmpty }
 
 def smboBackend (cfg : SmboCfg) : Backend SmboSt where
   initPos := smboInitPos
